@@ -65,6 +65,9 @@ uint16_t LogContainer::internalHeaderSize() const {
 void LogContainer::uncompress() {
     switch (compressionMethod) {
     case 0: /* no compression */
+        /* the stored data is the uncompressed data: it cannot be shorter than the declared size */
+        if (uncompressedFileSize > compressedFile.size())
+            throw Exception("LogContainer::uncompress(): unexpected uncompressedSize");
         uncompressedFile = compressedFile;
         break;
 
